@@ -9,6 +9,8 @@
 -/
 import PydapModel.FileHandlers
 import Proofs.FileHandlers
+import PydapModel.CsvReader
+import Proofs.CsvReader
 namespace Pydap.C20
 open Pydap Pydap.FileHandlers
 
@@ -226,6 +228,54 @@ theorem C20_csv_sidecar (header : List String) (rows : List (List Cell)) (s : Si
     simp only [csvDataset, csvAttach, List.mem_filter] at he
     exact ⟨he.1, by simpa using he.2⟩
 
+/-! ### CSV quoting rules (`csv.reader(quoting=QUOTE_NONNUMERIC)` as the handler uses it) -/
+
+/-- **which cells become strings and which floats, for every file a QUOTE_NONNUMERIC writer produces**: a header of
+    (quoted) names followed by any rows whose cells are quoted strings — any characters: delimiters, doubled quotes,
+    LF, CR, CRLF inside — unquoted number tokens, or nothing at all; lines ended by LF or CRLF.  The handler's
+    columns are the names, its records are the rows in order, a quoted cell is the string itself (also `""`, also
+    text that looks like a number), an unquoted token is `float(token)`, an empty unquoted cell is the empty string. -/
+theorem C20_csv_quoting (nl : List Char) (hnl : nl = ['\n'] ∨ nl = ['\r', '\n'])
+    (float : List Char → Option Nat) (fl : List Char → Nat)
+    (names : List (List Char)) (rows : List (List Csv.WCell)) (hnames : names ≠ [])
+    (hok : ∀ r ∈ rows, Csv.RowOK r) (hfl : ∀ r ∈ rows, Csv.FloatOK float fl r) :
+    Csv.csvFile float (Csv.renderRows nl (names.map Csv.WCell.q :: rows)) =
+      .ok (names.map Csv.Cell.str, rows.map fun r => r.map (Csv.cellOf fl)) := by
+  have hhdr : Csv.RowOK (names.map Csv.WCell.q) := by
+    refine ⟨by simpa using hnames, ?_, ?_⟩
+    · cases names with
+      | nil => exact absurd rfl hnames
+      | cons n ns => cases ns <;> simp
+    · intro c hc
+      obtain ⟨n, _, rfl⟩ := List.mem_map.mp hc
+      trivial
+  have hall : ∀ r ∈ names.map Csv.WCell.q :: rows, Csv.RowOK r := by
+    intro r hr
+    rcases List.mem_cons.mp hr with h | h
+    · exact h ▸ hhdr
+    · exact hok r h
+  have hflh : Csv.FloatOK float fl (names.map Csv.WCell.q) := by
+    intro c t hm
+    obtain ⟨n, _, hn⟩ := List.mem_map.mp hm
+    cases hn
+  have hfall : ∀ r ∈ names.map Csv.WCell.q :: rows, Csv.FloatOK float fl r := by
+    intro r hr
+    rcases List.mem_cons.mp hr with h | h
+    · exact h ▸ hflh
+    · exact hfl r h
+  unfold Csv.csvFile
+  rw [Csv.rows_read nl hnl _ hall]
+  dsimp only
+  rw [Csv.convRows_expect float fl _ hfall]
+  simp only [List.map_cons, List.map_map]
+  congr 2
+
+/-- unquoted text that is not a number is not served as anything: the file is rejected (`OpenFileError`) -/
+theorem C20_csv_unquoted_text_rejected (float : List Char → Option Nat) (hf : float ['a', 'b', 'c'] = none) :
+    Csv.csvFile float "\"a\"\nabc\n".toList = .error .notAFloat := by
+  simp [Csv.csvFile, Csv.readAll, Csv.readFrom, Csv.step, Csv.stepStartField, Csv.save, Csv.add, Csv.isNl,
+    Csv.lineEnds, Csv.reset, Csv.consRow, Csv.convRows, Csv.convRow, Csv.convField, hf]
+
 /-! ### non-vacuity -/
 
 private def exFile : NcFile :=
@@ -258,5 +308,15 @@ example : (csvDataset ["a", "b"] [[.num 1, .str "x"]]
     (some { top := [("NC_GLOBAL", [("t", "s:1")])], seq := [("b", [("units", "s:m")]), ("o", [])] })) =
     { columns := ["a", "b"], rows := [[.num 1, .str "x"]], globalAttrs := [("t", "s:1")],
       colAttrs := [("a", []), ("b", [("units", "s:m")])], seqAttrs := [("o", [])] } := by decide
+
+example : Csv.csvFile (fun t => if t = "1.5".toList then some 7 else none)
+    "\"a\",\"b\",\"c\"\r\n1.5,,\"x,\"\"y\r\nz\"\r\n".toList =
+    .ok ([.str "a".toList, .str "b".toList, .str "c".toList], [[.num 7, .str [], .str "x,\"y\r\nz".toList]]) := by
+  rfl
+example : Csv.RowOK [.bare "1.5".toList, .bare [], .q "x,\"y\r\nz".toList] := by
+  refine ⟨by simp, by simp, ?_⟩
+  intro c hc
+  simp at hc
+  rcases hc with h | h | h <;> subst h <;> simp [Csv.CellOK, Csv.Plain]
 
 end Pydap.C20
